@@ -271,6 +271,7 @@ func (c *Check) guardRule(rule string, sel func(*ssa.Function) bool, constOnly b
 			seenKeys["idx:"+fnName(f)+":"+s.desc] = true
 			key := "idx:" + fnName(f) + ":" + s.desc
 			pos := p.relFile(s.ins.Pos())
+			dbgGuard = os.Getenv("DEBUG_FN") != "" && strings.Contains(fnName(f), os.Getenv("DEBUG_FN"))
 			if how := g.discharge(s); how != "" {
 				if d := os.Getenv("DEBUG_FN"); d != "" && strings.Contains(fnName(f), d) {
 					fmt.Printf("DEBUG %s %s: %s\n", pos, s.desc, how)
